@@ -21,7 +21,8 @@ RULE = ("pair: two real ControlChannels (origins from {0,1,0x7ffd..0x8001,0xfffc
         "operation returns an error; first transmissions from Send and from the ACK path, retransmissions, ZLBs); random "
         "schedules under six network profiles, long runs (60 messages), bursts reaching a window of 16, a send-fault stream, "
         "and enumeration to depth 4 (5 thorough) over an 8-op alphabet after three preludes. disp / full / sccrq / rws / "
-        "sccrqdup / stopccn / overlap / idle: the real internal/l2tp Component — Dispatch on wire bytes for every message "
+        "sccrqdup / stopccn / overlap / idle / estab / runner / e2e: the real internal/l2tp Component (e2e: TWO real Components, LAC and "
+        "LNS, joined by a faulty network, compared with the pair model driven by runner_next) — Dispatch on wire bytes for every message "
         "type first-time and retransmitted, establishment with an advertised Receive Window Size, duplicate SCCRQ, StopCCN "
         "acknowledgement, forced overlap of the runner's Tick with Recv, and the real runner loop with real timers on an idle "
         "tunnel receiving a Hello. seqless: boundary pairs. Every op's observable (every write passed to the send callback "
@@ -38,7 +39,7 @@ ASSUMPTIONS = ["fewer than 2^15 messages are submitted per direction (exactly-on
 
 
 def route(case):
-    return "disp" if case.startswith(("disp", "sccrq", "full", "rws", "overlap", "stopccn", "sccrqdup", "idle", "runner", "estab")) else "chan"
+    return "disp" if case.startswith(("disp", "sccrq", "full", "rws", "overlap", "stopccn", "sccrqdup", "idle", "runner", "estab", "e2e")) else "chan"
 
 
 ORIGINS = [0, 0, 1, 0x7ffd, 0x7ffe, 0x7fff, 0x8000, 0x8001, 0xfffc, 0xfffd, 0xfffe, 0xffff]
@@ -242,6 +243,26 @@ def gen_estab(rng, n):
     return out
 
 
+def gen_e2e(rng, quick):
+    """two real Components (LAC and LNS) over a faulty network: every single fault on the first six control packets of each
+    direction, random double/triple faults; thorough adds consecutive losses of the same message (3 s and 7 s recoveries).
+    All cases run concurrently."""
+    out = ["e2e"]
+    for d in "ab":
+        for k in range(6):
+            for kind in "xulv":
+                out.append("e2e %s%s%d" % (kind, d, k))
+    for _ in range(30 if quick else 120):
+        fs = set()
+        for _ in range(rng.choice([2, 2, 3])):
+            fs.add("%s%s%d" % (rng.choice("xulv"), rng.choice("ab"), rng.randrange(7)))
+        # never drop the same original message and its first retransmission in the quick tier (3 s recovery)
+        out.append("e2e " + " ".join(sorted(fs)))
+    if not quick:
+        out += ["e2e xa0 xa1", "e2e xb0 xb1", "e2e xa0 xb0 xa1", "e2e xa0 xa1 xa2"]
+    return out
+
+
 def gen_runner():
     """scripted peers against the real runner loop (real timers, all cases run concurrently, ~2.6 s).  The watch window
     extends past the latest admissible acknowledgement time of the last inbound message (+1100 ms idle, RTO + 600)."""
@@ -347,6 +368,7 @@ def gen_cases(rng, tier, budget):
     cases.append("idle 700")
     cases += gen_runner()
     cases += gen_estab(rng, 120 if quick else 1500)
+    cases += gen_e2e(rng, quick)
     # advertised Receive Window Size through the real establishment path; exhaustive over the small grid
     for w in ["-", "0", "1", "2", "3", "4", "8", "16", "32"]:
         cases.append("rws lac %s 0 0" % w)
@@ -413,6 +435,11 @@ def monitor(case, line):
                 if toks[i + off] != toks[i + off - 1]:
                     return ("step %d (%s): a late copy of peer message #%s changed the tunnel/session/reply counts from %s to %s: "
                             "delivered to the protocol machine a second time" % (i, st, st[1:], toks[i + off - 1], toks[i + off]))
+        return None
+    if case.startswith("e2e"):
+        if "lac=T1S1," not in line or "lns=T1S1," not in line or not line.endswith("est=11"):
+            return ("the LAC/LNS bring-up over a network with faults %s did not end with exactly one tunnel and one established "
+                    "session on each side: %s" % (case.split()[1:], line))
         return None
     if case.startswith("runner"):
         return None
@@ -620,6 +647,8 @@ def nontrivial(case, out):
         return len(toks) > 2
     if case.startswith("estab"):
         return any(x[0] == "r" for x in case.split()[2:])
+    if case.startswith("e2e"):
+        return len(case.split()) > 1
     if not kv:
         return False
     if not (kv.get("delA") or kv.get("delB")):
@@ -635,6 +664,8 @@ def shrink(case):
         head, ops = t[:13], t[13:]
     elif t[0] == "disp":
         head, ops = t[:2], t[2:]
+    elif t[0] == "e2e":
+        head, ops = t[:1], t[1:]
     elif t[0] in ("full", "runner", "estab"):
         head, ops = t[:2], t[2:]
     else:
@@ -658,6 +689,15 @@ def distribution(cases, impl):
     for c, o in zip(cases, impl):
         k = c.split(" ", 1)[0]
         d[k] = d.get(k, 0) + 1
+        if k == "e2e":
+            for t in c.split()[1:]:
+                d.setdefault("e2e_faults", {})
+                name = {"x": "drop", "u": "duplicate", "l": "delay", "v": "duplicate+delay"}.get(t[0], t[0])
+                d["e2e_faults"][name] = d["e2e_faults"].get(name, 0) + 1
+            if o and o.endswith("est=11"):
+                d["e2e_established"] = d.get("e2e_established", 0) + 1
+        if k == "estab":
+            d["estab_late_copies"] = d.get("estab_late_copies", 0) + sum(1 for t in c.split()[2:] if t[0] == "r")
         if k != "pair" or o is None:
             continue
         p = parse_pair(c)
